@@ -23,10 +23,10 @@ LEVEL_NOTE = "1e-10 relative on every part"
 G = 9.80665
 
 
-def expected(asm, spec, L):
+def expected(asm, spec, L, a=None, m=None):
     """Closed forms per region and in total from first principles."""
-    a = spec["assemblies"]["A"]
-    m = spec["_meta"]["A"]
+    a = spec["assemblies"]["A"] if a is None else a
+    m = spec["_meta"]["A"] if m is None else m
     rho = spec["materials"]["cool_c"]["density"][0]
     out = {"friction": 0.0, "spacer_grid": 0.0, "gravity": 0.0, "regions": []}
     grav = bool(spec["setup"].get("include_gravity_head_loss"))
@@ -184,6 +184,50 @@ def run(spec):
     return o
 
 
+def run_core(spec):
+    """Every assembly of a core (several positions of one type, twins): per-region parts equal the closed forms and the
+    total is their sum - whatever else is in the core."""
+    o = Outcome()
+    with drive.Case(spec) as c:
+        r = c.setup()
+        sp = c.spec
+        drive.sweep(r)
+        tol = 1e-10 + 4e-12 / float(np.min(r.dz))
+        names = [a.name for a in r.assemblies]
+        worst = 0.0
+        for k, asm in enumerate(r.assemblies):
+            exp = expected(asm, sp, sp["core"]["length"], a=sp["assemblies"][asm.name], m=sp["_meta"]["types"][asm.name])
+            tot_regions = 0.0
+            for reg, e in zip(asm.region, exp["regions"]):
+                for key, v in reg._pressure_drop.items():
+                    ref = e[key]
+                    sc = max(abs(ref), 1e-300)
+                    worst = max(worst, abs(float(v) - ref) / sc if ref else abs(float(v)))
+                    o.check(float(v) >= 0.0, "negative_part_" + key, repr(v))
+                    o.check(abs(float(v) - ref) <= tol * sc + 1e-300, "core_closed_form_" + key,
+                            "asm %d (%s, one of %d of its type) region %s: %s = %.10e, closed form %.10e"
+                            % (k, asm.name, names.count(asm.name), getattr(reg, "name", "?"), key, float(v), ref))
+                tot_regions += float(reg.pressure_drop)
+            total = float(asm.pressure_drop)
+            o.check(abs(total - tot_regions) <= 1e-12 * max(total, 1e-300), "total_is_not_sum_of_regions",
+                    "asm %d: %.10e vs %.10e" % (k, total, tot_regions))
+        o.metric("core_part_rel_err", worst)
+        same = max(names.count(n) for n in set(names))
+        o.classes.update({"n_asm": len(names), "max_same_type": min(same, 4),
+                          "unrodded_regions": any(not g.is_rodded for a in r.assemblies for g in a.region),
+                          "gravity": bool(spec["setup"].get("include_gravity_head_loss"))})
+        o.nontrivial = same >= 2
+    return o
+
+
+@st.composite
+def core_cases(draw):
+    spec = draw(gen.core_spec(core_rings=(2, 2), n_types=(1, 2), rings=(2, 3), ducts=(1, 2), gap_models=("none", "flow"),
+                              n_steps=(20, 50), regimes=("lam", "tra", "tur"), regions=True, lowfi=True, twins=True, max_cells=1))
+    spec["setup"]["include_gravity_head_loss"] = draw(st.booleans())
+    return spec
+
+
 @st.composite
 def cases(draw, q):
     spec = draw(gen.single_assembly(rings=(2, 4) if q else (2, 6), ducts=(1, 2), n_steps=(32, 96),
@@ -207,4 +251,5 @@ def cases(draw, q):
 
 def parts(tier):
     q = tier == "quick"
-    return [Part("closed_form_and_step_independence", run, strategy=cases(q), examples=160 if q else 3000, timeout=180)]
+    return [Part("closed_form_and_step_independence", run, strategy=cases(q), examples=160 if q else 3000, timeout=180),
+            Part("core_assemblies", run_core, strategy=core_cases(), examples=48 if q else 1200, timeout=180)]
